@@ -5,11 +5,15 @@ pub struct Metadata { n: u64 }
 impl Metadata { pub fn len(&self) -> u64 { self.n } }
 pub struct File { data: Vec<u8>, pos: u64 }
 thread_local! { static SIDECAR: std::cell::RefCell<Option<Vec<u8>>> = std::cell::RefCell::new(None); }
+// the sidecar's path: a stand-in whose existence is that of the in-memory sidecar
+#[derive(Clone, Debug)] pub struct PathBuf(pub String);
+pub type Path = PathBuf;
+impl PathBuf { pub fn exists(&self) -> bool { SIDECAR.with(|s| s.borrow().is_some()) } pub fn from(s: &str) -> PathBuf { PathBuf(s.to_string()) } }
 pub struct BufReader { data: Vec<u8> }
 impl BufReader { pub fn new(f: File) -> Self { BufReader { data: f.data } }
     pub fn lines(self) -> impl Iterator<Item = io::Result<String>> { let text = String::from_utf8_lossy(&self.data).into_owned(); let mut v: Vec<io::Result<String>> = text.split('\n').map(|l| Ok(l.strip_suffix('\r').unwrap_or(l).to_string())).collect(); if text.ends_with('\n') || text.is_empty() { v.pop(); } v.into_iter() } }
 impl File {
-    pub fn open(_p: &std::path::PathBuf) -> io::Result<File> { SIDECAR.with(|s| s.borrow().clone()).map(|data| File { data, pos: 0 }).ok_or_else(|| io::Error::new(io::ErrorKind::NotFound, "absent")) }
+    pub fn open(_p: &PathBuf) -> io::Result<File> { SIDECAR.with(|s| s.borrow().clone()).map(|data| File { data, pos: 0 }).ok_or_else(|| io::Error::new(io::ErrorKind::NotFound, "absent")) }
     pub fn metadata(&self) -> io::Result<Metadata> { Ok(Metadata { n: self.data.len() as u64 }) }
     pub fn seek(&mut self, s: SeekFrom) -> io::Result<u64> { if let SeekFrom::Start(p) = s { self.pos = p; } Ok(self.pos) }
     pub fn read_exact(&mut self, buf: &mut [u8]) -> io::Result<()> {
@@ -41,9 +45,16 @@ pub mod serde_json { pub fn from_str<T: super::Parse>(s: &str) -> Result<T, Stri
 //@@ fn crates/ripd/src/continuity_stream_cache.rs scan_sidecar_backwards
 //@@ end
 //@@ item crates/ripd/src/continuity_stream_cache.rs struct TailScan
+// the checkpoint index (compaction_checkpoint_index.rs): one JSON entry per line; here "e<seq>" decodes to an entry with that seq
+//@@ item crates/ripd/src/compaction_checkpoint_index.rs const COMPACTION_CHECKPOINT_INDEX_VERSION_V1
+#[derive(Debug, Clone)]
+pub struct CompactionCheckpointIndexEntryV1 { pub version: u32, pub seq: u64, pub to_seq: u64, pub checkpoint_id: String, pub cut_rule_id: String, pub summary_kind: String, pub summary_artifact_id: String }
+impl Parse for CompactionCheckpointIndexEntryV1 { fn parse(b: &[u8]) -> Option<Self> { parse_seq(b).map(|seq| CompactionCheckpointIndexEntryV1 { version: 1, seq, to_seq: seq, checkpoint_id: String::new(), cut_rule_id: String::new(), summary_kind: String::new(), summary_artifact_id: String::new() }) } }
+//@@ fn crates/ripd/src/compaction_checkpoint_index.rs load_index_v1
+//@@ end
 pub struct ContinuityStreamCache;
 impl ContinuityStreamCache {
-    fn path_for(&self, id: &str) -> std::path::PathBuf { std::path::PathBuf::from(id) }
+    fn path_for(&self, id: &str) -> PathBuf { PathBuf::from(id) }
     //@@ fn crates/ripd/src/continuity_stream_cache.rs ContinuityStreamCache::try_replay
     //@@ end
     //@@ fn crates/ripd/src/continuity_stream_cache.rs ContinuityStreamCache::scan_tail
@@ -67,6 +78,15 @@ fn replay_clauses() {
             Err(_) => { let ok = !torn && !recs.is_empty() && recs == (0..recs.len() as u64).collect::<Vec<_>>();
                 if ok { println!("WITNESS {{\"function\": \"ContinuityStreamCache::try_replay\", \"sidecar_lines\": {:?}, \"problem\": \"a complete, well-formed sidecar was refused\"}}", lines); std::process::exit(0); } }
         }
+        // the checkpoint index is served only whole: every non-blank line decodes and the seqs do not go back; anything else is an error
+        // (the caller rebuilds from the sidecar), never a shorter list
+        match load_index_v1(&PathBuf::from("c")) {
+            Ok(Some(v)) => { let got: Vec<u64> = v.iter().map(|e| e.seq).collect();
+                if got != recs || torn || got.is_empty() || got.windows(2).any(|w| w[1] < w[0]) { println!("WITNESS {{\"function\": \"load_index_v1\", \"index_lines\": {:?}, \"returned_seqs\": {:?}, \"problem\": \"an index with a line that does not decode (or seqs going back) was served, with entries missing, instead of being refused\"}}", lines, got); std::process::exit(0); } }
+            Ok(None) => { println!("WITNESS {{\"function\": \"load_index_v1\", \"index_lines\": {:?}, \"problem\": \"an existing index was reported absent\"}}", lines); std::process::exit(0); }
+            Err(_) => { let ok = !torn && !recs.is_empty() && recs.windows(2).all(|w| w[1] >= w[0]);
+                if ok { println!("WITNESS {{\"function\": \"load_index_v1\", \"index_lines\": {:?}, \"problem\": \"a complete, well-formed index was refused\"}}", lines); std::process::exit(0); } }
+        }
         for max_events in [1usize, 2, 10] {
             match cache.scan_tail("c", max_events, 1 << 20) {
                 Ok(Some(t)) => { let got: Vec<u64> = t.events.iter().map(|e| e.seq).collect();
@@ -86,7 +106,7 @@ fn replay_clauses() {
 fn main() {
     let args: Vec<String> = std::env::args().collect();
     let label = args.get(1).cloned().unwrap_or_default();
-    if label.starts_with("replay") || label.starts_with("try_replay") || label.starts_with("scan_tail") || label.is_empty() { replay_clauses(); if !label.is_empty() { return; } }
+    if label.starts_with("replay") || label.starts_with("try_replay") || label.starts_with("scan_tail") || label.starts_with("checkpoint_index") || label.is_empty() { replay_clauses(); if !label.is_empty() { return; } }
     if label.starts_with("strip_line_terminator") {
         let alpha = [b'a', b'\n', b'\r'];
         for n in 0..=5u32 { for code in 0..3usize.pow(n) {
